@@ -6,6 +6,7 @@ sides with z3 and queues the alternative.
 """
 import ast
 import builtins
+import itertools
 import inspect
 import math
 import operator
@@ -16,7 +17,7 @@ import enum
 
 import z3
 
-from .values import (SV, SymObj, SymMap, SymSeq, NativeModel, Leaf, SymStr, Unsupported, as_real, as_int, kind_of, truth,
+from .values import (SV, SymObj, SymMap, SymSeq, NativeModel, Leaf, SymStr, GenericIter, Poison, Unsupported, as_real, as_int, kind_of, truth,
                      real_val, key_eq, is_symbolic, name_const, NameSort)
 
 
@@ -25,6 +26,10 @@ class PyRaise(Exception):
 
     def __init__(self, exc):
         self.exc = exc  # a real exception instance (may carry symbolic args)
+
+
+class LoopCarried(Exception):
+    """a generic iteration read a non-scalar local written by another iteration."""
 
 
 class PathEnd(Exception):
@@ -228,7 +233,10 @@ class Env:
 
     def lookup(self, name):
         if name in self.locals and name not in self.global_names:
-            return self.locals[name]
+            v = self.locals[name]
+            if isinstance(v, Poison):
+                raise LoopCarried(name)
+            return v
         if isinstance(self.closure, Env):
             try:
                 return self.closure.lookup(name)
@@ -420,7 +428,7 @@ class Interp:
             return self._native(cls, args, kwargs)
         if issubclass(cls, BaseException):
             return cls(*args, **kwargs)
-        if cls in (list, tuple, dict, set, frozenset, enumerate, zip, range, reversed):
+        if cls in (list, tuple, dict, set, frozenset, enumerate, zip, range, reversed, itertools.chain):
             return self._native(cls, args, kwargs)
         if cls in (float, int, bool, str):
             return self._convert(cls, args)
@@ -800,7 +808,10 @@ class Interp:
             raise Unsupported("for over symbolic %s at %s:%d needs a loop invariant" % (
                 type(it).__name__, getattr(env, "qualname", "?"), s.lineno))
         items = self.iterate(it)
+        generic = isinstance(it, GenericIter)
         for x in items:
+            if generic:
+                self._havoc_carried(s, env)
             self.assign(s.target, x, env)
             try:
                 self.exec_block(s.body, env)
@@ -809,6 +820,25 @@ class Interp:
             except _Continue:
                 continue
         self.exec_block(s.orelse, env)
+
+    def _havoc_carried(self, s, env):
+        """generic iteration: every local assigned in the loop body holds an arbitrary value of its kind (scalars)
+        or a poison (objects) when the iteration starts."""
+        from .loops import assigned_names
+        tnames = assigned_names([ast.Assign(targets=[s.target], value=ast.Constant(0))])
+        for nm in assigned_names(s.body):
+            if nm in tnames or nm not in env.locals:
+                continue
+            v = env.locals[nm]
+            if isinstance(v, Leaf):
+                v = v.value
+            k = kind_of(v)
+            if k in ("int", "real", "bool"):
+                env.locals[nm] = self.path.fresh("carried_" + nm, k)
+            elif isinstance(v, SV) and v.k == "name":
+                env.locals[nm] = self.path.fresh("carried_" + nm, "name")
+            else:
+                env.locals[nm] = Poison(nm)
 
     def iterate(self, v):
         if isinstance(v, (SymSeq, SymMap, SV)):
@@ -836,7 +866,12 @@ class Interp:
         return e.value
 
     def e_Name(self, e, env):
-        return env.lookup(e.id)
+        try:
+            return env.lookup(e.id)
+        except LoopCarried as lc:
+            self.path.oblige("independent_iteration:no_loop_carried_local[%s]" % lc, False,
+                             where="line %d" % getattr(e, "lineno", 0), kind="inv")
+            raise PathEnd("loop-carried read")
 
     def e_Tuple(self, e, env):
         return tuple(self._elts(e.elts, env))
